@@ -102,7 +102,7 @@ func GenC14(seed uint64, tier string) *Plan {
 			case "SyncCollection":
 				c.Path = p.coll
 				c.Token = rt.Pick(r, []string{"", "http://example.org/sync/41"})
-				c.N = rt.Pick(r, []int{0, 10})
+				c.N = rt.Pick(r, []int{0, 10, 1, 2, 3, 5})
 			}
 			if c.Fn == "FindCurrentUserPrincipal" {
 				c.Client = "webdav"
